@@ -188,6 +188,10 @@ def run_unit(unit, progress):
         elif i % 10 == 3:
             prog = gen.revisit_program(random.Random(cs))
             inc("revisit_programs")
+        elif i % 10 == 6:
+            # overrides with non-lexical lifetimes: the one that is left is not the most recently entered one
+            prog = gen.overlap_program(random.Random(cs))
+            inc("programs_leaving_overrides_in_another_order_than_entered")
         else:
             prog = gen.generate(cs, PROFILES[i % 4])
         if prog.get("shared"):
@@ -224,7 +228,11 @@ def run_unit(unit, progress):
         flushed = False
         for pi, pol in enumerate(pols):
             how = HOWS[(i + pi) % 4]
-            rt, out, _e, _r = tl.execute(prog, how, pol, cs, MONITORS_F if faulty else MONITORS, rrt_exp=None if faulty else exp_rrt)
+            mons = MONITORS_F if faulty else MONITORS
+            if any(st[0] == "ctxopen" for node in prog["nodes"] for st in lang.iter_stmts(node["body"])):
+                # the program itself does not nest its contexts: "resumed last, paused first" does not apply to it
+                mons = tuple(m for m in mons if m != "nesting")
+            rt, out, _e, _r = tl.execute(prog, how, pol, cs, mons, rrt_exp=None if faulty else exp_rrt)
             if faulty and any(ev[0] == "ctx_fault" for ev in rt.log):
                 inc("runs_where_a_context_callback_raised")
             res["evaluations"] += 1
